@@ -50,7 +50,7 @@ def analyse(ops, res, nontrivial=None):
         elif ml is not None and (n >= len(ml) or a != ml[n]):
             diffs.append((o, a, ml[n] if n < len(ml) else "<no model line>"))
         if nontrivial is None or nontrivial(o, obs):
-            nt.add(o)
+            nt.add(a)        # distinct by operation AND observation (the full trace line)
     return wrong, diffs, {"evaluations": len(il), "distinct_nontrivial": len(nt), "partitions": parts}
 
 
